@@ -200,6 +200,11 @@ def cases_pertfail(tier):
             for ms in (1, R):
                 yield "R%dP%d/min_pert=%d/%s/%s/min=%d" % (R, P, pms, "|".join("".join("F" if f else "o" for f in row) for row in pf), "merged" if merge else "per-realization", ms), {
                     "R": R, "P": P, "pms": pms, "pf": pf, "merge": merge, "min_success": ms}
+    # an estimator that needs two realizations (stddev): the realizations that count for the gradient are those left after the
+    # perturbation failures - one left of two: the evaluation ends with TOO_FEW_REALIZATIONS; two left of three: it goes on
+    for R, P, pms, pf in ((2, 2, 2, [[True, False], [False, False]]), (3, 2, 2, [[False, False], [False, True], [False, False]]), (2, 2, 1, [[False, False], [True, True]])):
+        yield "R%dP%d/min_pert=%d/%s/per-realization/min=1/stddev" % (R, P, pms, "|".join("".join("F" if f else "o" for f in row) for row in pf)), {
+            "R": R, "P": P, "pms": pms, "pf": pf, "merge": False, "min_success": 1, "est": "stddev"}
 
 
 def scn_pertfail(T, case):
@@ -210,7 +215,8 @@ def scn_pertfail(T, case):
     R, P, pms, pf, J, N = case["R"], case["P"], case["pms"], case["pf"], 1, 1
     inv = H.InvertContract(T) if T.symbolic else None
     ch = H.Chain(T, stubs={(MG, "_invert_linear_equations"): inv} if T.symbolic else None)
-    w = T.real("weights", (R,), lo=0.001)
+    # (the standard deviation with symbolic weights is non-linear arithmetic the solvers answer slowly: given weights there)
+    w = T.const(np.array([0.5, 0.5] if R == 2 else [0.25, 0.5, 0.25])) if case.get("est") == "stddev" else T.real("weights", (R,), lo=0.001)
     O, PO, S, x = T.real("O", (R, J)), T.real("PO", (R, P, J)), T.real("samples", (R, P, N)), T.real("x", (N,))
     fail_g = [(P - sum(pf[r])) < pms for r in range(R)]
     keep = [r for r in range(R) if not fail_g[r]]
@@ -222,9 +228,27 @@ def scn_pertfail(T, case):
             return T.np.array([np.nan] * J) if pfv[r][p] else POv[r, p]
 
         cfg = H.make_config(T, Rn, J, 0, N, weights=wv, ow=T.const(np.array([1.0])), P=P, min_success=ms, pert_min_success=pms, magnitudes=T.const(np.ones(N)), merge=case["merge"])
-        ev = H.make_evaluator(T, ch, cfg, H.ScriptedEvaluator(T, ch, fobj), estimators=[H.estimator(ch, "mean", merge=case["merge"])], samplers=[H.FakeSampler(Sv)])
+        ev = H.make_evaluator(T, ch, cfg, H.ScriptedEvaluator(T, ch, fobj), estimators=[H.estimator(ch, case.get("est", "mean"), merge=case["merge"])], samplers=[H.FakeSampler(Sv)])
         return ev.calculate(x, compute_functions=True, compute_gradients=True)
 
+    if case.get("est") == "stddev":
+        from ropt.enums import OptimizerExitCode
+
+        if T.symbolic:
+            T.assume(T.all([(O[r, 0] - O[0, 0] > 1e-3) | (O[0, 0] - O[r, 0] > 1e-3) for r in range(1, R)]))
+        try:
+            fres, gres = run(R, w, O, PO, S, pf, case["min_success"])
+            ended = None
+        except OptimizationAborted as exc:
+            ended = exc.exit_code
+        if len(keep) < 2:
+            T.prove("C03.pertfail.too_few_realizations_left_for_the_estimator_ends_the_evaluation", ended == OptimizerExitCode.TOO_FEW_REALIZATIONS)
+        else:
+            T.prove("C03.pertfail.enough_realizations_left_for_the_estimator_no_abort", ended is None)
+            if ended is None:
+                T.prove("C03.pertfail.realizations_with_too_few_successful_perturbations_are_failed_for_the_gradient", [bool(b) for b in gres.realizations.failed_realizations] == fail_g)
+                T.prove("C03.pertfail.gradients_present_at_realization_min_success", gres.gradients is not None)
+        return
     try:
         fres, gres = run(R, w, O, PO, S, pf, case["min_success"])
     except OptimizationAborted:
@@ -256,29 +280,39 @@ def cases_split(tier):
     for R, P in ((2, 2), (3, 1)) if tier == "quick" else ((2, 2), (3, 1), (2, 3), (3, 2)):
         for pms in range(1, P + 1):
             yield "R%dP%d/min_pert=%d" % (R, P, pms), {"R": R, "P": P, "pms": pms}
+    # the NaN of a failed perturbation shows in ONE column only (the second objective, or the constraint): the perturbation has failed
+    # all the same - in the gradient-only request exactly as in a combined one
+    for nan_in in ("second-objective", "constraint"):
+        for R, P, pms in ((2, 2, 2), (2, 2, 1)) if tier == "quick" else ((2, 2, 2), (2, 2, 1), (3, 1, 1), (2, 3, 2)):
+            yield "R%dP%d/min_pert=%d/nan-in-the-%s-only" % (R, P, pms, nan_in), {"R": R, "P": P, "pms": pms, "nan_in": nan_in}
 
 
 def scn_split(T, case):
     """calculate(functions) then calculate(gradients) at the same point: the perturbation failures are symbolic NaN flags."""
     from ropt.exceptions import OptimizationAborted
 
-    R, P, pms, N, J = case["R"], case["P"], case["pms"], 1, 1
+    R, P, pms, N = case["R"], case["P"], case["pms"], 1
+    nan_in = case.get("nan_in")
+    J, K = (2 if nan_in == "second-objective" else 1), (1 if nan_in == "constraint" else 0)
     inv = H.InvertContract(T) if T.symbolic else None
     ch = H.Chain(T, stubs={(MG, "_invert_linear_equations"): inv} if T.symbolic else None)
     w = T.real("weights", (R,), lo=0.0)
-    O = T.real("O", (R, J))
+    O = T.real("O", (R, J + K))
     pfail = [[bool(T.choose(2)) for p in range(P)] for r in range(R)]
-    PO = T.real("PO", (R, P, J))
+    PO = T.real("PO", (R, P, J + K))
     S = T.real("samples", (R, P, N))
     x = T.real("x", (N,))
+    nan_col = {None: None, "second-objective": 1, "constraint": J}[nan_in]
 
-    def fobj(v, r, p, k):
+    def fobj(v, r, p, k, lo=0, hi=J):
         if p is None or p < 0:
-            return O[r]
-        return T.np.array([np.nan] * J) if pfail[r][p] else PO[r, p]
+            return O[r, lo:hi]
+        if not pfail[r][p]:
+            return PO[r, p, lo:hi]
+        return T.np.array([np.nan if nan_col is None or c == nan_col else PO[r, p, c] for c in range(lo, hi)])
 
-    cfg = H.make_config(T, R, J, 0, N, weights=w, ow=T.const(np.array([1.0])), P=P, min_success=1, pert_min_success=pms, magnitudes=T.const(np.ones(N)))
-    sev = H.ScriptedEvaluator(T, ch, fobj)
+    cfg = H.make_config(T, R, J, K, N, weights=w, ow=T.const(np.ones(J)), P=P, min_success=1, pert_min_success=pms, magnitudes=T.const(np.ones(N)))
+    sev = H.ScriptedEvaluator(T, ch, fobj, (lambda v, r, p, k: fobj(v, r, p, k, J, J + K)) if K else None)
     ev = H.make_evaluator(T, ch, cfg, sev, samplers=[H.FakeSampler(S)])
     ev.calculate(x, compute_functions=True, compute_gradients=False)
     try:
@@ -289,6 +323,13 @@ def scn_split(T, case):
     want = [(P - sum(pfail[r])) < pms for r in range(R)]
     T.prove("C03.split.gradient_evaluation_reports_realizations_with_too_few_perturbations_as_failed", [bool(b) for b in gres.realizations.failed_realizations] == want)
     T.prove("C03.split.no_gradients_iff_no_realization_left", (gres.gradients is None) == (sum(want) == R))
+    if nan_in:
+        E = gres.evaluations
+        cols = lambda r, p: [E.perturbed_objectives[r, p, j] for j in range(J)] + ([E.perturbed_constraints[r, p, k] for k in range(K)] if K else [])  # noqa: E731
+        T.prove("C03.split.every_value_of_a_failed_perturbation_is_reported_as_nan",
+                T.all([T.all([T.np.isnan(c) for c in cols(r, p)]) for r in range(R) for p in range(P) if pfail[r][p]]))
+        T.prove("C03.split.values_of_successful_perturbations_are_reported_unchanged",
+                T.all([T.same(c, PO[r, p, i]) for r in range(R) for p in range(P) if not pfail[r][p] for i, c in enumerate(cols(r, p))]))
 
 
 # ------------------------------------------------------------------------------------ _run_evaluations
@@ -321,11 +362,13 @@ def scn_run(T, case):
     if T.symbolic:
         sh = T.shadow([MO])
         cls = T.under_contract(sh, MO, "EnsembleOptimizer")
-        T.under_contract(sh, MO, "EnsembleOptimizer._run_evaluations")
+        entry = T.under_contract(sh, MO, "EnsembleOptimizer._run_evaluations")
         red = sh.get(MO, "_Redirector")
     else:
         cls = T.func(MO, "EnsembleOptimizer")
+        entry = T.func(MO, "EnsembleOptimizer._run_evaluations")
         red = T.func(MO, "_Redirector")
+    entry.__name__  # noqa: B018  (the private driver routine this contract is written for: ContractUnbound if its interface is not the recorded one)
     results = []
     for kind, miss, af in zip(case["kinds"], case["missing"], case["allfailed"]):
         real = types.SimpleNamespace(failed_realizations=np.array([af] * 2))
